@@ -47,6 +47,101 @@ pub struct Run {
 
 pub const MAX_STORED_PER_KIND: u64 = 25;
 
+/// Second build profile: the same check executed by a build of this harness WITHOUT debug assertions and overflow
+/// checks (what the engine ships with), started next to the main run and merged into its report.  A change whose
+/// effect exists only when `debug_assert!` arguments are not evaluated, or when arithmetic wraps, is invisible to
+/// the checked build alone.
+struct NdChild {
+    child: std::process::Child,
+    summary: String,
+    log: String,
+}
+static ND_CHILD: Mutex<Option<NdChild>> = Mutex::new(None);
+
+pub fn is_nd_child() -> Option<String> {
+    std::env::var("TVC_ND_CHILD").ok().filter(|s| !s.is_empty())
+}
+
+pub fn nd_start(prop: &str) {
+    if is_nd_child().is_some() {
+        return;
+    }
+    let Ok(bin) = std::env::var("VERIF_ND_BIN") else { return };
+    if bin.is_empty() {
+        return;
+    }
+    let verif_dir = std::env::var("VERIF_DIR").unwrap_or_else(|_| "/verif".to_string());
+    let dir = format!("{verif_dir}/build/nd");
+    let _ = std::fs::create_dir_all(&dir);
+    let summary = format!("{dir}/{prop}.json");
+    let log = format!("{dir}/{prop}.log");
+    let _ = std::fs::remove_file(&summary);
+    let Ok(logf) = std::fs::File::create(&log) else { return };
+    let Ok(logf2) = logf.try_clone() else { return };
+    // the second profile always runs the quick tier: what it looks for (code that behaves differently without
+    // assertions / with wrapping arithmetic) is not rare in position space
+    match std::process::Command::new(&bin).arg(prop).arg("quick").env("TVC_ND_CHILD", &summary).env_remove("VERIF_ND_BIN").stdout(logf).stderr(logf2).spawn() {
+        Ok(child) => *ND_CHILD.lock().unwrap() = Some(NdChild { child, summary, log }),
+        Err(e) => eprintln!("MACHINERY ERROR: cannot start {bin}: {e}"),
+    }
+}
+
+/// Wait for the second-profile run and fold its families, counts and violations into this run.
+fn nd_join(run: &Run) -> (u64, u64) {
+    let Some(mut nd) = ND_CHILD.lock().unwrap().take() else {
+        if std::env::var("VERIF_ND_BIN").map(|s| !s.is_empty()).unwrap_or(false) && is_nd_child().is_none() {
+            run.machinery_error("second-profile run was requested but could not be started");
+        }
+        return (0, 0);
+    };
+    let status = nd.child.wait();
+    let text = std::fs::read_to_string(&nd.summary).unwrap_or_default();
+    let Ok(j) = J::parse(&text) else {
+        run.machinery_error(format!("second-profile run left no summary (status {status:?}); see {}", nd.log));
+        return (0, 0);
+    };
+    let geti = |k: &str| j.get(k).and_then(|x| x.as_i64()).unwrap_or(0) as u64;
+    let (st, tr) = (geti("states"), geti("transitions"));
+    run.family(
+        "PROFILE-NDEBUG",
+        "the quick tier of this same check, executed by a second build of the harness without debug assertions and overflow checks (the profile the engine ships with)",
+        st,
+        tr,
+        j.get("completed").map(|x| matches!(x, J::Bool(true))).unwrap_or(false),
+        &format!("{} families, {} distinct outcomes, {:.1}s", geti("families"), geti("distinct"), j.get("wall_s").and_then(|x| if let J::Num(f) = x { Some(*f) } else { x.as_i64().map(|i| i as f64) }).unwrap_or(0.0)),
+    );
+    run.count("nd_profile_states", st);
+    if let Some(errs) = j.get("machinery_errors").and_then(|x| x.as_arr()) {
+        for e in errs {
+            run.machinery_error(format!("second-profile run: {}", e.as_str().unwrap_or("?")));
+        }
+    }
+    let mut stored: BTreeMap<String, u64> = BTreeMap::new();
+    if let Some(vs) = j.get("violations").and_then(|x| x.as_arr()) {
+        for v in vs {
+            let kind = format!("nd:{}", v.get("kind").and_then(|x| x.as_str()).unwrap_or("?"));
+            let mut case = v.get("case").cloned().unwrap_or(J::Null);
+            if let J::Obj(kv) = &mut case {
+                kv.push(("profile".to_string(), J::s("nd")));
+            }
+            *stored.entry(kind.clone()).or_insert(0) += 1;
+            run.violations.lock().unwrap().push(Violation {
+                kind,
+                key: format!("nd|{}", v.get("key").and_then(|x| x.as_str()).unwrap_or("?")),
+                case,
+                detail: format!("[build without debug assertions / overflow checks] {}", v.get("detail").and_then(|x| x.as_str()).unwrap_or("")),
+            });
+        }
+    }
+    if let Some(J::Obj(kv)) = j.get("violation_kinds") {
+        let mut c = run.violation_count.lock().unwrap();
+        for (k, n) in kv {
+            *c.entry(format!("nd:{k}")).or_insert(0) += n.as_i64().unwrap_or(0) as u64;
+        }
+    }
+    (st, tr)
+}
+
 impl Run {
     pub fn new(prop: &str, tier: &str, seed: u64) -> Run {
         Run {
@@ -184,6 +279,11 @@ pub fn load_known(path: &str) -> Vec<Known> {
 /// Write evidence and replays, print the verdict lines, return the process exit code.
 pub fn finish(run: &Run, level_states: u64, level_transitions: u64, rule: &str, exhaustive: bool) -> i32 {
     let verif_dir = std::env::var("VERIF_DIR").unwrap_or_else(|_| "/verif".to_string());
+    if let Some(path) = is_nd_child() {
+        return finish_nd_child(run, &path, level_states, level_transitions);
+    }
+    let (nd_states, nd_transitions) = nd_join(run);
+    let (level_states, level_transitions) = (level_states + nd_states, level_transitions + nd_transitions);
     let known = load_known(&format!("{verif_dir}/known_findings.jsonl"));
     let wall = run.start.elapsed().as_secs_f64();
     let viols = run.violations.lock().unwrap().clone();
@@ -304,4 +404,40 @@ pub fn finish(run: &Run, level_states: u64, level_transitions: u64, rule: &str, 
         return 1;
     }
     0
+}
+
+/// The second-profile run reports to its parent through a summary file only (no evidence, no replays, no verdict lines).
+fn finish_nd_child(run: &Run, path: &str, level_states: u64, level_transitions: u64) -> i32 {
+    for e in crate::util::ESCAPED.lock().unwrap().iter().take(5) {
+        run.machinery_error(format!("panic escaped a worker: {e}"));
+    }
+    let viols = run.violations.lock().unwrap().clone();
+    let fams = run.families.lock().unwrap();
+    let merr = run.machinery_errors.lock().unwrap().clone();
+    let j = J::obj(vec![
+        ("property", J::s(run.prop.clone())),
+        ("states", J::i(level_states)),
+        ("transitions", J::i(level_transitions)),
+        ("families", J::i(fams.len() as u64)),
+        ("completed", J::Bool(fams.iter().all(|f| f.completed))),
+        ("distinct", J::i(run.distinct.lock().unwrap().len() as u64)),
+        ("wall_s", J::Num(run.start.elapsed().as_secs_f64())),
+        ("violation_kinds", J::from_map(&run.violation_count.lock().unwrap())),
+        ("machinery_errors", J::Arr(merr.iter().map(|s| J::s(s.clone())).collect())),
+        (
+            "violations",
+            J::Arr(viols.iter().map(|v| J::obj(vec![("kind", J::s(v.kind.clone())), ("key", J::s(v.key.clone())), ("case", v.case.clone()), ("detail", J::s(v.detail.clone()))])).collect()),
+        ),
+    ]);
+    if let Err(e) = std::fs::write(path, j.dump()) {
+        eprintln!("cannot write {path}: {e}");
+        return 2;
+    }
+    if !merr.is_empty() {
+        2
+    } else if viols.is_empty() {
+        0
+    } else {
+        1
+    }
 }
